@@ -801,7 +801,8 @@ def _tiny_history(args):
 
     def pub(nm, via, a3, fn):
         try:
-            pt = fn().pubkey.point
+            v = fn()
+            pt = getattr(v, "pubkey", v).point
             out, s = (0, int(pt.x()), int(pt.y())), "ok"
         except Exception as e:
             out, s = (1, 0, 0), eclib.mro(e)
@@ -997,9 +998,9 @@ def run(tier):
         pool = ctx.Pool(8)
         tiny_async = pool.map_async(_tiny_job, [(nm, tier, "c17/" + nm) for nm in prime_curves + ["TH2"]])
         ora_async = pool.map_async(_oracle_curve, [(i, tier, wd) for i in range(17)], chunksize=1)
-        hpool = ctx.Pool(4, maxtasksperchild=1)          # histories: each in a fresh process of its own
-        thist_async = hpool.map_async(_tiny_history, [(tier, 0), (tier, 1)], chunksize=1)
-        ohist_async = hpool.map_async(_oracle_history, [(tier, wd, 0), (tier, wd, 1)], chunksize=1)
+        # histories: each in a fresh interpreter of its own
+        thist_async = eclib.FreshJobs(os.path.join(wd, "fresh"), "harness.checks.c17", "_tiny_history", [(tier, 0), (tier, 1)])
+        ohist_async = eclib.FreshJobs(os.path.join(wd, "fresh"), "harness.checks.c17", "_oracle_history", [(tier, wd, 0), (tier, wd, 1)])
 
         def mc(job):
             nm, invs, tag = job
@@ -1028,7 +1029,8 @@ def run(tier):
             ora = list(ora) + list(ohist_async.get(timeout=2400))
         finally:
             pool.terminate()
-            hpool.terminate()
+            thist_async.terminate()
+            ohist_async.terminate()
         nhist = 0
         for h in thist:
             for nm, evs in h.items():
